@@ -291,6 +291,14 @@ def ctx678(ctx: Ctx) -> None:
                 ctx.R.fail("CTX-6", mod, s, f"{pr} are not methods of ExitStack/AsyncExitStack on CPython {bad}", construct=f"method pair {pr}")
             else:
                 ctx.R.ok("CTX-6", f"method pair {pr}", "real methods on all four interpreters")
+    # positive evidence of a wrong selector: an async method name chosen under a test on the *stack's* type
+    for c_ in ast.walk(fn):
+        if isinstance(c_, ast.Constant) and c_.value in ("enter_async_context", "push_async_exit", "push_async_callback"):
+            gs_ = [norm(gx) for gx, pol in guards_of(mod, c_, fn)]
+            sel = [gx for gx in gs_ if gx.startswith(f"isinstance({sv},")]
+            if sel:
+                ctx.R.fail("CTX-6", mod, c_, f"the registration method name {c_.value!r} is chosen by `{sel[0][:60]}` (the kind of exit stack) instead of by each callback's own sync flag: "
+                           "a synchronous registration on an AsyncExitStack is described as the async method", construct=f"method name {c_.value} selected by stack type")
     if n_pairs < 4:
         raise AnalysisError(f"CTX-6: {n_pairs} method classifications found (4 confirmed by hand)")
     # which branch says what
